@@ -200,6 +200,10 @@ PROPS = {
                      "all 2000 scripts of length 3 over a 10-letter alphabet from scratch and after open;ph;po"},
             {"name": "c17", "n_quick": 600, "n_thorough": 10000, "model": "coq/Conn/Timers.v",
              "rule": "the timed scripts of C17 (peer idle-time-out set: heartbeats must stop once a close, with or without error, is written)"},
+            {"name": "lifeq", "n_quick": 0, "n_thorough": 0, "oracle": False,
+             "rule": "72 fixed cases: a sender writes 1..13 pre-settled messages of 10/100/700 bytes into a pipe of 64..1024 bytes that the peer does not read (frames "
+                     "queue behind the blocked transport), the peer then writes a close and only then reads: the queued frames must be flushed before the answering "
+                     "close, nothing may follow it and the handle reports the peer's close"},
         ],
         "rule": "a case is one script run against the real client ConnectionEngine over tokio::io::duplex (paused clock, one event per "
                 "barrier) and through the extracted Coq step function; compared per step: frames written (kind, close error condition), "
@@ -367,5 +371,26 @@ PROPS = {
         "assumptions": ["real-time limits are machine dependent (2 s per stimulus)"],
         "partial": ["'never does work out of proportion' and 'never blocks forever' are decided by measurement on the catalogue, not by a theorem",
                     "known findings: unbounded decoder recursion, send() pending for ever after a stop, uncapped SCRAM iteration count"],
+    },
+    "C05": {
+        "class_prefixes": ["c05-", "harness-crash"],
+        "subs": [
+            {"name": "c05", "n_quick": 1500, "n_thorough": 60000, "model": "coq/Codec/Spec.v",
+             "rule": "values from the C03 generator (depth <= 3, arrays of supported element kinds, distinct map keys): `spec` = the real encoder's bytes through the extracted "
+                     "reference decoder (must be exactly the value); `specv` = three alternative spec-valid encodings per value from the harness's variant encoder (uint0/smalluint/uint, "
+                     "smallint/int, smalllong/long, ulong0/smallulong/ulong, str/sym/bin 8 and 32, list0/8/32, map8/32, array8/32 under every admissible element constructor, "
+                     "an element constructor on empty arrays, boolean 0x56 vs 0x41/0x42, descriptors by code in three widths or by symbol in two) through the real from_slice "
+                     "and through the reference decoder (both must be the value)"},
+            {"name": "codec", "n_quick": 300, "n_thorough": 20000, "model": "coq/Codec/Dec.v, coq/Codec/Enc.v",
+             "rule": "the enc/dec correspondence of C03/C04: ties the encoder and decoder models used by the theorems to the code"},
+        ],
+        "rule": "c05: a case is one byte string; compared: the value the reference decoder (Coq, extracted) assigns to it and the value the real decoder / the generator assigns; "
+                "non-trivial = a variant encoding that differs from the encoder's own",
+        "trusted": ["Codec/Spec.v is our reading of part 1 of the AMQP 1.0 specification (format-code table tied to the code's enum by Tie_FormatCodes); liberal where the "
+                    "specification is silent (an empty array may omit its element constructor)",
+                    "the harness's variant encoder (independent of the library's encoder)"],
+        "assumptions": ["values within the C03 scope: arrays of null / compound / described elements are outside (known findings of C03)"],
+        "partial": ["typed composite forms (trailing-field elision, null-for-default, list-vs-map composites) are exercised by the typed round-trip harness of C03, not by a theorem",
+                    "the acceptance theorem holds under lib_compatible (two array classes excluded, refuted with witnesses) and nodup_keys (invalid per the specification)"],
     },
 }
